@@ -2,6 +2,7 @@ package props
 
 import (
 	"encoding/json"
+	"errors"
 	"fmt"
 	"strconv"
 	"strings"
@@ -73,7 +74,7 @@ type omap interface {
 	Update(k int, f func(int) int)
 	Delete(k int)
 	Filter(keep func(k, v int) bool)
-	Map(f func(k, v int) int)
+	Map(f func(k, v int) (int, error)) error
 	Find(pred func(k, v int) bool) (kv, bool)
 	Each() []kv
 	EachSafe() []kv
@@ -85,7 +86,8 @@ type omap interface {
 	KeyJSON(k int) string // how key k must appear when decoded from JSON
 }
 
-var c19KeyNames = []string{"a", "b", "c", `q"k`, "é", "", "z\n", "d"}
+// the three keys of the exhaustive part include a control character (JSON must escape it as \u0001)
+var c19KeyNames = []string{"a", "\x01b", "c", `q"k`, "é\x7f", "", "z\n", "d"}
 
 // --- RuleASTNodes
 type ruleMap struct{ m *schema.RuleASTNodes }
@@ -112,8 +114,11 @@ func keyIdx(s string) int {
 func (r ruleMap) Filter(keep func(k, v int) bool) {
 	r.m.Filter(func(k string, n schema.RuleASTNode) bool { return keep(keyIdx(k), rvi(n)) })
 }
-func (r ruleMap) Map(f func(k, v int) int) {
-	r.m.Map(func(k string, n schema.RuleASTNode) (schema.RuleASTNode, error) { return rv(f(keyIdx(k), rvi(n))), nil })
+func (r ruleMap) Map(f func(k, v int) (int, error)) error {
+	return r.m.Map(func(k string, n schema.RuleASTNode) (schema.RuleASTNode, error) {
+		v, err := f(keyIdx(k), rvi(n))
+		return rv(v), err
+	})
 }
 func (r ruleMap) Find(pred func(k, v int) bool) (kv, bool) {
 	it, ok := r.m.Find(func(k string, n schema.RuleASTNode) bool { return pred(keyIdx(k), rvi(n)) })
@@ -157,8 +162,11 @@ func (r astMap) Delete(k int) { r.m.Delete(c19KeyNames[k]) }
 func (r astMap) Filter(keep func(k, v int) bool) {
 	r.m.Filter(func(k string, n schema.ASTNode) bool { return keep(keyIdx(k), avi(n)) })
 }
-func (r astMap) Map(f func(k, v int) int) {
-	r.m.Map(func(k string, n schema.ASTNode) (schema.ASTNode, error) { return av(f(keyIdx(k), avi(n))), nil })
+func (r astMap) Map(f func(k, v int) (int, error)) error {
+	return r.m.Map(func(k string, n schema.ASTNode) (schema.ASTNode, error) {
+		v, err := f(keyIdx(k), avi(n))
+		return av(v), err
+	})
 }
 func (r astMap) Find(pred func(k, v int) bool) (kv, bool) {
 	it, ok := r.m.Find(func(k string, n schema.ASTNode) bool { return pred(keyIdx(k), avi(n)) })
@@ -220,9 +228,10 @@ func (r conMap) Delete(k int) { r.m.Delete(c19ConKeys[k]) }
 func (r conMap) Filter(keep func(k, v int) bool) {
 	r.m.Filter(func(k constraint.Type, n constraint.Constraint) bool { return keep(conIdx(k), cvi(n)) })
 }
-func (r conMap) Map(f func(k, v int) int) {
-	r.m.Map(func(k constraint.Type, n constraint.Constraint) (constraint.Constraint, error) {
-		return cv(f(conIdx(k), cvi(n))), nil
+func (r conMap) Map(f func(k, v int) (int, error)) error {
+	return r.m.Map(func(k constraint.Type, n constraint.Constraint) (constraint.Constraint, error) {
+		v, err := f(conIdx(k), cvi(n))
+		return cv(v), err
 	})
 }
 func (r conMap) Find(pred func(k, v int) bool) (kv, bool) {
@@ -265,7 +274,9 @@ type c19Op struct {
 	Arg int    `json:"arg,omitempty"` // predicate selector
 }
 
-var c19OpKinds = []string{"set", "update", "delete", "filter", "map", "find"}
+var c19OpKinds = []string{"set", "update", "delete", "filter", "map", "find", "mapfail"}
+
+var errC19Map = errors.New("callback refuses")
 
 // predicates for filter/find: by selector
 func c19Pred(sel int) func(k, v int) bool {
@@ -336,9 +347,33 @@ func c19Apply(r *mon.Run, cs c19Case) bool {
 				return false
 			}
 		case "map":
-			p = mon.Guard(func() { m.Map(func(k, v int) int { return v*2 + k }) })
+			p = mon.Guard(func() { _ = m.Map(func(k, v int) (int, error) { return v*2 + k, nil }) })
 			for _, k := range d.keys {
 				d.vals[k] = d.vals[k]*2 + k
+			}
+		case "mapfail":
+			// the callback fails at its (Arg+1)-th visit and hands back a value with the error: a dictionary keeps
+			// the entries visited before as mapped, and the failing and all later entries as they were
+			var merr error
+			visits := 0
+			p = mon.Guard(func() {
+				merr = m.Map(func(k, v int) (int, error) {
+					visits++
+					if visits == op.Arg+1 {
+						return 777, errC19Map
+					}
+					return v*2 + k, nil
+				})
+			})
+			for i, k := range d.keys {
+				if i >= op.Arg {
+					break
+				}
+				d.vals[k] = d.vals[k]*2 + k
+			}
+			if p == nil && (merr != nil) != (len(d.keys) > op.Arg) {
+				fail(i, "map-error", fmt.Sprintf("Map with a callback failing at visit %d over %d entries returned error %v", op.Arg+1, len(d.keys), merr))
+				return false
 			}
 		case "find":
 			var got kv
@@ -552,6 +587,7 @@ func c19Alphabet(nKeys int) []c19Op {
 	for sel := 1; sel < 6; sel++ {
 		ops = append(ops, c19Op{Op: "filter", Arg: sel})
 	}
+	ops = append(ops, c19Op{Op: "mapfail", Arg: 0}, c19Op{Op: "mapfail", Arg: 1})
 	ops = append(ops, c19Op{Op: "map"}, c19Op{Op: "find", Arg: 3}, c19Op{Op: "find", Arg: 5}, c19Op{Op: "delete", K: nKeys}) // last: a key never set
 	return ops
 }
@@ -659,7 +695,7 @@ func init() {
 				c19ApplySet(r, ss)
 			}
 		},
-		Rule:               "every sequence of <= L operations (L=4 quick, 5 thorough) over an alphabet of 19 operations {set/delete of 3 keys, update, set-existing, 5 filter predicates, map, 2 find predicates, delete of a never-set key} is applied to a fresh RuleASTNodes, ASTNodes and Constraints container and to a reference insertion-ordered dict; Len/Has/Get/GetValue/Each/EachSafe/MarshalJSON are compared after every operation; plus random sequences of <= 40 operations over 7 keys (some need JSON escaping) and all StringSet constructor/Add lists of length <= 3 over 3 names. distinct_nontrivial = distinct operation sequences (hashed text), every one of which mutates or queries the container at least once.",
+		Rule:               "every sequence of <= L operations (L=4 quick, 5 thorough) over an alphabet of 21 operations {set/delete of 3 keys (one holds a control character), update, set-existing, 5 filter predicates, map, map with a callback that fails at its 1st / 2nd visit and hands back a value with the error, 2 find predicates, delete of a never-set key} is applied to a fresh RuleASTNodes, ASTNodes and Constraints container and to a reference insertion-ordered dict; Len/Has/Get/GetValue/Each/EachSafe/MarshalJSON are compared after every operation; plus random sequences of <= 40 operations over 7 keys (some need JSON escaping) and all StringSet constructor/Add lists of length <= 3 over 3 names. distinct_nontrivial = distinct operation sequences (hashed text), every one of which mutates or queries the container at least once.",
 		MinNontrivialQuick: 10000, MinNontrivialThorough: 100000,
 		Assumptions: []string{"reference model: 40-line insertion-ordered dict in harness/internal/props/c19.go", "encoding/json decides JSON validity and key order of MarshalJSON output",
 			"Constraints.MarshalJSON: the spelling of keys is not judged (documentation silent), only validity, entry count, uniqueness"},
